@@ -39,11 +39,8 @@ func c08B58DecodeMemo(fr *frame, args []value) value {
 		}
 		panic(pathAbort{"unsupported", "no model for external function " + c08B58Decode + " (list github.com/mr-tron/base58 in roots)"})
 	}
-	delete(externals, c08B58Decode)
-	res := func() value {
-		defer func() { externals[c08B58Decode] = c08B58DecodeMemo }()
-		return callSSA(fr.i, fr.caller, token.NoPos, fn, args, nil)
-	}()
+	skipExternalOnce = fn // run the real body (the externals lookup is cached per function)
+	res := callSSA(fr.i, fr.caller, token.NoPos, fn, args, nil)
 	t := res.(tuple)
 	r := c08B58Result{}
 	if e := t[1].(iface); e.t != nil {
@@ -256,4 +253,18 @@ func init() {
 	}
 	statusMethod("Code", func(s c08Status) value { return s.code })
 	statusMethod("Message", func(s c08Status) value { return s.msg })
+
+	// context.WithTimeout(parent, d): the real body arms a runtime timer (time.AfterFunc). The
+	// model is the real context.WithCancel(parent): same cancellation behaviour, the deadline
+	// itself never fires during the explored request (assumption, stated by the obligations).
+	if externals["context.WithTimeout"] == nil {
+		externals["context.WithTimeout"] = func(fr *frame, args []value) value {
+			stub("context.WithTimeout (model: real context.WithCancel; the deadline does not expire during the request)")
+			pkg := fr.i.prog.ImportedPackage("context")
+			if pkg == nil || pkg.Func("WithCancel") == nil || pkg.Func("WithCancel").Blocks == nil {
+				panic(pathAbort{"unsupported", "context.WithTimeout: package context is not a source root"})
+			}
+			return call(fr.i, fr, token.NoPos, pkg.Func("WithCancel"), []value{args[0]})
+		}
+	}
 }
